@@ -22,7 +22,7 @@ case "$prop" in
     ( cd "$VERIF/harness" && go build -race -tags verif -o "$VERIF/bin/vcheck.race" ./cmd/vcheck ) || exit 1;;
 esac
 case "$prop" in
-  C01|C18|C19|C20|all)
+  C01|C09|C18|C19|C20|all)
     ( cd "$REPO" && go build -tags verif -o "$VERIF/bin/sysl" ./cmd/sysl ) || exit 1;;
 esac
 exit 0
